@@ -39,7 +39,7 @@ META = dict(
                'tdms_segment.SegmentIndexCache.get_index', 'tdms_segment.ObjectListKey', 'reader.TdmsReader._update_object_metadata',
                'reader._update_object_data_type', 'reader.TdmsReader._build_index', 'reader.TdmsReader._read_segment_metadata',
                'reader.TdmsReader._read_lead_in', 'tdms_segment.TdmsSegmentObject.read_raw_data_index', 'tdms_segment.TdmsSegment._calculate_chunks'],
-    bounds=dict(quick='inductive step: 2 paths x 4 pre-states each x any previous list x 5 header kinds x list orders x 0-2 chunks, counts/'
+    bounds=dict(quick='2-segment sequences also with the second segment big-endian; inductive step: 2 paths x 4 pre-states each x any previous list x 5 header kinds x list orders x 0-2 chunks, counts/'
                       'totals/offsets unbounded solver integers (thorough: also 3 paths x 4 header kinds); all 2-segment sequences; 3-segment sequences whose middle segment is one of 14 configurations; 2 channels '
                       '(int32, int16), 1-2 values, 1-2 chunks; plus the object-order family (same objects listed in a different '
                       'order in a new-object-list segment, 3 channels)',
@@ -211,6 +211,10 @@ def _shape_of(task, choose):
     cfgs = [first[task['c0']]]
     if task['S'] == 2:
         cfgs.append(rest[choose('c1', len(rest))])
+        sh = build_shape(cfgs)
+        if choose('big1', 2):
+            sh[1]['big'] = True         # the inheriting segment has the other byte order than the segment that defined the index
+        return sh
     else:
         if 'mid' in task:
             cfgs.append(MIDDLE_QUICK[task['mid']])
